@@ -196,6 +196,7 @@ type callerSpec struct {
 	name  string
 	c     *neotest.Contract
 	tc    *neotest.Contract // the same permissions on a hand-assembled caller that uses method tokens (CALLT)
+	ec    *neotest.Contract // the same permissions on the entry-context contract E
 }
 
 func (c callerSpec) String() string {
@@ -246,6 +247,7 @@ type permStats struct {
 	pure, real int64
 	block      int64
 	token      int64
+	entry      int64
 	rootCause  int64 // mismatches explained by the group kind skipping the method list
 	witness    map[string]*permCase
 	rootBySub  map[string]int
